@@ -8,169 +8,36 @@
 #include "types.h"
 #include "node.h"
 
-void *__real_malloc(size_t);
-void __real_free(void *);
+#include "drv_ident_common.h"
 
-#define MAXID 16
-#define MAXBLK 256
+/* nodes created by `i node`, linked as one list in creation order (for mpt_node_locate / mpt_node_next) */
+static MPT_STRUCT(node) *node_of[MAXID];
+static MPT_STRUCT(node) *node_last;
 
-static struct slot {
-	MPT_STRUCT(identifier) *id;   /* NULL = unused/dead */
-	void *storage;                /* what to free (the node for node identifiers) */
-	size_t size;
-} slots[MAXID];
-static size_t nslot;
-
-/* blocks allocated by library code */
-static struct { void *ptr; int owner; } blk[MAXBLK];
-static size_t nblk;
-static int in_lib = -1;  /* owner of the running library call, -1 = harness code */
-
-void *__wrap_malloc(size_t n)
+static void node_link(size_t k, MPT_STRUCT(node) *nd)
 {
-	void *p = __real_malloc(n);
-	if (in_lib >= 0 && p && nblk < MAXBLK) { blk[nblk].ptr = p; blk[nblk].owner = in_lib; ++nblk; }
-	return p;
+	node_of[k] = nd;
+	nd->prev = node_last;
+	nd->next = 0;
+	if (node_last) node_last->next = nd;
+	node_last = nd;
 }
-void __wrap_free(void *p)
+static void node_unlink(size_t k)
 {
-	if (in_lib >= 0 && p) {
-		size_t i;
-		for (i = 0; i < nblk; i++) if (blk[i].ptr == p) { blk[i] = blk[--nblk]; break; }
-	}
-	__real_free(p);
+	MPT_STRUCT(node) *nd = node_of[k];
+	if (!nd) return;
+	if (nd->prev) nd->prev->next = nd->next;
+	if (nd->next) nd->next->prev = nd->prev;
+	if (node_last == nd) node_last = nd->prev;
+	node_of[k] = 0;
 }
-static size_t owned(int k)
-{
-	size_t i, n = 0;
-	for (i = 0; i < nblk; i++) if (blk[i].owner == k) ++n;
-	return n;
-}
-/* release what the library left behind for owner k; returns the number of blocks */
-static size_t reap(int k)
-{
-	size_t i = 0, n = 0;
-	while (i < nblk) {
-		if (blk[i].owner == k) { __real_free(blk[i].ptr); blk[i] = blk[--nblk]; ++n; }
-		else ++i;
-	}
-	return n;
-}
-
-/* byte-string operand: "-" empty, hex, "rep:<hh>:<n>", "null"; result has a terminating 0 appended */
-static int parse_bytes(const char *s, uint8_t **out, size_t *len, int *isnull)
-{
-	*isnull = 0; *out = 0; *len = 0;
-	if (!strcmp(s, "null")) { *isnull = 1; return 0; }
-	if (!strncmp(s, "rep:", 4)) {
-		int a = drv_hexval(s[4]), b = a < 0 ? -1 : drv_hexval(s[5]);
-		size_t n;
-		if (a < 0 || b < 0 || s[6] != ':' || drv_parse_nat(s + 7, &n) || n > 200000 || (s[7] == '0' && s[8])) return -1;
-		*out = __real_malloc(n + 1);
-		memset(*out, a * 16 + b, n);
-		(*out)[n] = 0;
-		*len = n;
-		return 0;
-	}
-	{
-		uint8_t *d; int nul;
-		if (drv_parse_data(s, &d, len, &nul)) return -1;
-		if (nul) { free(d); return -1; }
-		*out = __real_malloc(*len + 1);
-		memcpy(*out, d, *len);
-		(*out)[*len] = 0;
-		free(d);
-	}
-	return 0;
-}
-/* explicit length operand: decimal, or "-1" */
-static int parse_len(const char *s, long *v)
-{
-	size_t n;
-	if (!strcmp(s, "-1")) { *v = -1; return 0; }
-	if ((s[0] == '0' && s[1]) || drv_parse_nat(s, &n) || n > 1000000) return -1;
-	*v = (long) n;
-	return 0;
-}
-static uint32_t fnv(const uint8_t *b, size_t n)
-{
-	uint32_t h = 2166136261u;
-	size_t i;
-	for (i = 0; i < n; i++) { h ^= b[i]; h *= 16777619u; }
-	return h;
-}
-/* content: short = hex, long = length, hash, first and last 8 bytes */
-static void put_content(const uint8_t *b, size_t n)
-{
-	if (n <= 40) { drv_puthex(stdout, b, n); return; }
-	printf("#%zu:%08x:", n, fnv(b, n));
-	drv_puthex(stdout, b, 8);
-	fputs("..", stdout);
-	drv_puthex(stdout, b + n - 8, 8);
-}
-/* what an identifier reads back as: through mpt_identifier_data and the length field */
-static void put_ident(const MPT_STRUCT(identifier) *id)
-{
-	const uint8_t *d = mpt_identifier_data(id);
-	size_t len = id->_len;
-	printf("%u:", (unsigned) id->_charset);
-	if (!len) { fputs("unset", stdout); return; }
-	if (!d) { fputs("!nulldata", stdout); return; }
-	if (id->_charset == MPT_CHARSET(UTF8)) {
-		/* text: the stored length counts a terminating zero */
-		if (d[len - 1]) fputs("!unterminated:", stdout);
-		put_content(d, len - 1);
-	} else {
-		fputs("raw:", stdout);
-		put_content(d, len);
-	}
-}
-static const char *extra_i = "";
-static void put_state(void)
-{
-	size_t k, any = 0;
-	fputs(" | C", stdout);
-	for (k = 0; k < nslot; k++) {
-		if (!slots[k].id) continue;
-		printf(" k%zu=", k);
-		put_ident(slots[k].id);
-		++any;
-	}
-	if (!any) fputs(" -", stdout);
-	fputs(" | I", stdout);
-	for (k = 0; k < nslot; k++) {
-		if (!slots[k].id) continue;
-		printf(" k%zu=%u/%u/%s/%zu", k, (unsigned) slots[k].id->_len, (unsigned) slots[k].id->_max,
-		       slots[k].id->_len > slots[k].id->_max ? "ext" : "inl", owned((int) k));
-	}
-	printf(" heap=%zu%s\n", nblk, extra_i);
-}
-static void result(const char *r)
-{
-	printf("R %s", r);
-	put_state();
-}
-static int new_slot(MPT_STRUCT(identifier) *id, void *storage, size_t size)
-{
-	slots[nslot].id = id; slots[nslot].storage = storage; slots[nslot].size = size;
-	return (int) nslot++;
-}
-static int parse_slot(const char *s, size_t *k)
-{
-	if ((s[0] == '0' && s[1]) || drv_parse_nat(s, k) || *k >= nslot || !slots[*k].id) return -1;
-	return 0;
-}
-static void drop_all(void)
+static void put_found(const MPT_STRUCT(node) *nd)
 {
 	size_t k;
-	for (k = 0; k < nslot; k++) {
-		if (!slots[k].id) continue;
-		in_lib = (int) k; mpt_identifier_set(slots[k].id, 0, 0); in_lib = -1;
-		reap((int) k);
-		__real_free(slots[k].storage);
-		slots[k].id = 0;
-	}
-	nslot = 0;
+	char buf[32];
+	if (!nd) { result("none"); return; }
+	for (k = 0; k < nslot; k++) if (node_of[k] == nd) { snprintf(buf, sizeof(buf), "found=k%zu", k); result(buf); return; }
+	result("found=?");
 }
 
 int main(void)
@@ -185,6 +52,7 @@ int main(void)
 		size_t k, j, n;
 		if (!strcmp(op, "reset") && drv_nw == 2) {
 			drop_all();
+			memset(node_of, 0, sizeof(node_of)); node_last = 0;
 			result("ok");
 		}
 		else if (!strcmp(op, "new") && drv_nw == 3) {
@@ -209,7 +77,7 @@ int main(void)
 			if ((drv_w[2][0] == '0' && drv_w[2][1]) || drv_parse_nat(drv_w[2], &n) || n > 100000 || nslot >= MAXID) { puts("bad-op"); continue; }
 			MPT_STRUCT(node) *nd = mpt_node_new(n);
 			if (!nd) { result("refused"); continue; }
-			new_slot(&nd->ident, nd, 0);
+			node_link(new_slot(&nd->ident, nd, 0), nd);
 			result("ok");
 		}
 		else if (!strcmp(op, "set") && (drv_nw == 4 || drv_nw == 5)) {
@@ -223,6 +91,17 @@ int main(void)
 			void *r = mpt_identifier_set(slots[k].id, isnull ? 0 : (char *) dat, (int) len);
 			in_lib = -1;
 			__real_free(dat);
+			result(r ? "ok" : "refused");
+		}
+		else if (!strcmp(op, "setself") && drv_nw == 5) {
+			/* the new name is a part of the identifier's own current content: data + off, len bytes */
+			size_t off, ln;
+			if (parse_slot(drv_w[2], &k) || (drv_w[3][0] == '0' && drv_w[3][1]) || drv_parse_nat(drv_w[3], &off)
+			    || (drv_w[4][0] == '0' && drv_w[4][1]) || drv_parse_nat(drv_w[4], &ln)
+			    || off + ln > RAWID(slots[k].id)->_len || off + ln < off || !mpt_identifier_data(slots[k].id)) { puts("bad-op"); continue; }
+			in_lib = (int) k;
+			void *r = mpt_identifier_set(slots[k].id, (const char *) mpt_identifier_data(slots[k].id) + off, (int) ln);
+			in_lib = -1;
 			result(r ? "ok" : "refused");
 		}
 		else if (!strcmp(op, "copy") && drv_nw == 4) {
@@ -262,9 +141,30 @@ int main(void)
 			in_lib = (int) k; mpt_identifier_set(slots[k].id, 0, 0); in_lib = -1;
 			char buf[48];
 			snprintf(buf, sizeof(buf), "ok leaked=%zu", reap((int) k));
+			node_unlink(k);
 			__real_free(slots[k].storage);
 			slots[k].id = 0;
 			result(buf);
+		}
+		else if (!strcmp(op, "locate") && (drv_nw == 5 || drv_nw == 6)) {
+			/* mpt_node_locate(node k, pos, name, len, -1): text name, default identifier type */
+			uint8_t *dat; size_t dlen; int isnull; long len; long pos; char *e;
+			if (parse_slot(drv_w[2], &k) || !node_of[k]) { puts("bad-op"); continue; }
+			pos = strtol(drv_w[3], &e, 10);
+			if (!*drv_w[3] || *e || pos < -20 || pos > 20 || drv_w[3][0] == '+' || (pos == 0 && strcmp(drv_w[3], "0"))
+			    || (drv_w[3][0] == '0' && drv_w[3][1]) || (drv_w[3][0] == '-' && drv_w[3][1] == '0')) { puts("bad-op"); continue; }
+			if (parse_bytes(drv_w[4], &dat, &dlen, &isnull)) { puts("bad-op"); continue; }
+			len = (long) dlen;
+			if (isnull || (drv_nw == 6 && (parse_len(drv_w[5], &len) || len < 0 || len > (long) dlen))) { __real_free(dat); puts("bad-op"); continue; }
+			put_found(mpt_node_locate(node_of[k], (int) pos, dat, (size_t) len, -1));
+			__real_free(dat);
+		}
+		else if (!strcmp(op, "next") && drv_nw == 4) {
+			/* mpt_node_next(node k, name): C string name or the zero pointer */
+			uint8_t *dat; size_t dlen; int isnull;
+			if (parse_slot(drv_w[2], &k) || !node_of[k] || parse_bytes(drv_w[3], &dat, &dlen, &isnull)) { puts("bad-op"); continue; }
+			put_found(mpt_node_next(node_of[k], isnull ? 0 : (const char *) dat));
+			__real_free(dat);
 		}
 		else if (!strcmp(op, "tinit") && drv_nw == 3) {
 			/* traits init into fresh (uninitialised) storage of sizeof(identifier): default or copy construction */
@@ -288,6 +188,7 @@ int main(void)
 			in_lib = (int) k; mpt_identifier_traits()->fini(slots[k].id); in_lib = -1;
 			char buf[48];
 			snprintf(buf, sizeof(buf), "ok leaked=%zu", reap((int) k));
+			node_unlink(k);
 			__real_free(slots[k].storage);
 			slots[k].id = 0;
 			result(buf);
